@@ -45,6 +45,7 @@ MCInit == Init /\ hist = <<>> /\ \A k \in 1..Len(Kinds) : TLCSet(k, 0)
 (* of a grounded predicate below p                                          *)
 OverStale == \E q \in GDeps(V, last'.act[2]) :
                 /\ TableOf(V, q) \in DOMAIN file
+                /\ TableOf(V, q) \in MCStaleTables
                 /\ SameBag(file[TableOf(V, q)], MCStaleBag(TableOf(V, q)))
 
 StepOverStale == last'.act[1] = "Run" /\ OverStale
